@@ -139,6 +139,7 @@ func (x *Exec) evalInstr(fr *Frame, st *State, in ssa.Value) (Val, bool) {
 			c.Bindings = append(c.Bindings, x.value(fr, st, b))
 		}
 		env := x.freshRef(st)
+		x.closurePre(fr, st, c)
 		return Val{T: mk("Fn", "mk_Fn", IntLit(int64(x.te.FnID(fn.String()))), env), Typ: in.Type(), Clo: c}, true
 
 	case *ssa.MakeInterface:
